@@ -16,7 +16,7 @@ RULE = (
     "the arrival instants of <= 2 (quick) / <= 3 (thorough) events on every grid point of [0, 2.5 s], each event matching or not "
     "(another value, or an event on another element that the wait's filter excludes; two events at one instant = one read chunk), "
     "x timeout in {none} + grid (exact ties with an arrival skipped) x polling {off, (delay, interval) on the grid} x condition "
-    "{expect, initial, check, check that raises on events it is not meant for} x event kind {value, state}; 'concurrent' runs two waits with different conditions on one client (the getProperties seen must be the multiset union of "
+    "{expect, initial, check, check that raises on events it is not meant for} x event kind {value, state, definition}; arrivals may carry None; 'concurrent' runs two waits with different conditions on one client (the getProperties seen must be the multiset union of "
     "every polling wait's own schedule); "
     "'fine' draws finer grids and longer bursts with Hypothesis. Oracle (analytic): with the first matching event object in a "
     "probe's log at tm - the wait returns THAT object at loop time tm if timeout is none or tm < timeout, else raises at loop time "
